@@ -54,6 +54,7 @@ type Engine struct {
 	maxUnwind map[string]int
 	steps     int
 	inInit    []*ssa.Package
+	lastNowSec, lastNowNs *Term
 }
 
 // HarnessSpec configures one symbolic run.
@@ -69,6 +70,11 @@ type HarnessSpec struct {
 	TimeoutS    int
 	Solver      string
 	Reach       bool // harness is a reachability witness only
+	KnownOpen   []string // ids of known findings listed as open (vKnown)
+	Par          int  // solver processes for this harness
+	GroupAsserts bool // decide all asserts with one query (cheap harnesses)
+	NonMonotonicClock bool // time.Now may go backwards between calls
+	BMI2        string   // "", "generic": cpu.X86.HasBMI2=false; "asm": true; "either": symbolic
 	MaxStrEq    int
 }
 
